@@ -21,14 +21,16 @@ V == INSTANCE Version WITH CacheVersions <- {}, cacheN <- 0, cacheG <- 0, last <
 Kinds  == {"plain", "na", "list", "dict", "grid", "xstr"}
 Only3  == {"na", "list", "dict", "grid", "xstr"}
 RowPaths  == {"append", "insert", "extend", "iadd", "setitem"}
-MetaPaths == {"meta_set", "meta_append", "meta_extend", "colmeta_set", "colmeta_append", "col_assign", "col_add_item"}
+MetaPaths == {"meta_set", "meta_append", "meta_extend", "colmeta_set", "colmeta_append", "col_assign", "col_add_item",
+              "meta_overwrite", "colmeta_overwrite", "meta_update", "col_reassign"}   \* overwriting an existing tag / column
 CtorPaths == {"ctor_meta", "ctor_colmeta"}
 Paths == RowPaths \cup MetaPaths
 
 \* version texts as code points
 T20 == <<50, 46, 48>>  T30 == <<51, 46, 48>>  T25 == <<50, 46, 53>>  T300 == <<51, 46, 48, 46, 48>>
 T10 == <<49, 46, 48>>  T40 == <<52, 46, 48>>
-VersionTexts == {T20, T30, T25, T300, T10, T40}
+T200 == <<50, 46, 48, 46, 48>>  T2000 == <<50, 46, 48, 46, 48, 46, 48>>  T2 == <<50>>  T3 == <<51>>
+VersionTexts == {T20, T30, T25, T300, T10, T40, T200, T2000, T2, T3}
 
 Pre3(ver) == V!Lt(V!Nearest(V!Parse(ver)), V!V30)
 Accepts(ver, kind) == kind \notin Only3 \/ ~Pre3(ver)
